@@ -284,23 +284,27 @@ func TestVerif_C14(t *testing.T) {
 			progs[ver], qk[ver], qv[ver] = prog, int(k), int(v)
 		}
 		c.Rule("actors: U = real Scanner.Scan()+LivenessScanner advanced hook by hook (every visiting order of the conntrack keys, the reverse-entry Get, every processing order of the cleanup queue), K = real conntrack_cleanup.c interpreted one queue entry per step, P = forward/reverse packet on a connection, LRU eviction of any entry, re-creation, T = clock +2s; " +
-			"initial tables: every connection kind {udp, icmp, tcp syn-sent/established/fins/rst, NAT pair udp/tcp with equal or different leg timestamps, orphan forward, orphan reverse} x age {fresh, 1s under, 1s over the timeout}, alone and in pairs; bounds: scans, packets, clock steps per exploration (see extras). " +
+			"initial tables: every connection kind {udp, icmp, unknown protocol, tcp syn-sent/established/half-closed/fins/rst-flag/fins+rst, established or syn-sent with an old or recent rst_seen timestamp, DSR syn-only/one-fin/old-rst, NAT pair udp/tcp with equal or different leg timestamps or old rst_seen, orphan forward, orphan reverse} x age {fresh, 1s under, 1s over the timeout}, alone and in pairs; bounds: scans, packets, clock steps per exploration (see extras). " +
 			"Non-trivial = a deletion happened or a packet event interleaved with a scan in progress.")
 		c.Assume("one invocation of process_ccq_entry is atomic (the window between its lookup and its delete inside one BPF invocation is not explored)")
 		c.Assume("packet path model: request-direction packets stamp forward and reverse entry with the same now, reply-direction packets stamp the reverse entry only, a forward entry whose reverse entry is missing is dropped by the next request packet (conntrack.h); map iteration visits the keys present at its start in any order and reads current values")
-		c.Assume("expected timeout of each generated entry = the timeouts.DefaultTimeouts() field for its protocol/state (udp, icmp, tcp syn-sent / established / fins-seen / reset-seen)")
+		c.Assume("expected timeout of each generated entry = the shortest idle time after which the documented rules allow removal: the timeouts.DefaultTimeouts() field for its protocol/state (udp, icmp, generic, tcp syn-sent / established / fins-seen / reset-seen; DSR: one FIN counts as fins-seen, syn-only counts as established), 2 minutes for an established/DSR flow with a non-zero rst_seen timestamp")
 
 		type scen struct {
 			init []c14Init
 		}
-		kinds := []string{"udp", "tcp-est", "tcp-fin", "tcp-rst", "tcp-syn", "icmp"}
+		kinds := []string{"udp", "tcp-est", "tcp-fin", "tcp-rst", "tcp-syn", "icmp",
+			// the other inputs of the expiry rules x {old, fresh}: rst_seen timestamp, per-leg FIN/RST flags, DSR, unknown protocol
+			"tcp-est-oldrst", "tcp-est-recentrst", "tcp-syn-oldrst", "tcp-dsr-syn", "tcp-dsr-onefin", "tcp-dsr-oldrst", "tcp-onefin", "tcp-fin-rst", "generic"}
 		var singles, pairs []scen
 		for _, k := range kinds {
-			for _, a := range []string{"under", "over"} {
+			for _, a := range []string{"fresh", "under", "over"} {
 				singles = append(singles, scen{[]c14Init{{Kind: k, Age: a}}})
 			}
 		}
-		singles = append(singles, scen{[]c14Init{{Kind: "udp", Age: "fresh"}}})
+		for _, a := range []string{"fresh", "under", "over"} {
+			singles = append(singles, scen{[]c14Init{{Kind: "nat-tcp-oldrst", Age: a, FwdOlder: true}}})
+		}
 		for _, k := range []string{"nat-udp", "nat-tcp"} {
 			for _, a := range []string{"over", "under"} {
 				singles = append(singles, scen{[]c14Init{{Kind: k, Age: a}}})
@@ -348,7 +352,7 @@ func TestVerif_C14(t *testing.T) {
 			for _, s := range pairs[:2] {
 				run(s, c14Bounds{maxScans: 1, maxP: 1, maxT: 1}, 20, true)
 			}
-			run(singles[13], c14Bounds{maxScans: 1, maxP: 1, maxT: 1}, 6, false)
+			run(scen{[]c14Init{{Kind: "nat-udp", Age: "over", FwdOlder: true}}}, c14Bounds{maxScans: 1, maxP: 1, maxT: 1}, 6, false)
 			// IPv6 instance of the scanner (KeyV6/ValueV6, cleanupv1.ValueV6, conntrack_cleanup.c -DIPVER6)
 			for _, s := range []scen{{[]c14Init{{Kind: "udp", Age: "over"}}}, {[]c14Init{{Kind: "nat-udp", Age: "over"}}}, {[]c14Init{{Kind: "nat-udp", Age: "over", FwdOlder: true}}}, {[]c14Init{{Kind: "nat-tcp", Age: "over", NoFwd: true}}}} {
 				run6(s, c14Bounds{maxScans: 1, maxP: 1, maxT: 1}, 12)
